@@ -124,6 +124,17 @@ func (x *Exec) evalSpecIdent(st *State, id *ast.Ident) *Value {
 			}
 		}
 	}
+	if x.softNames && x.softEndPos.IsValid() {
+		// a function-level local declared after the return statement of this exit: it has the
+		// value it has at that return (unset: arbitrary), as before locals were resolved per exit
+		if sc := x.eng.pkg.Types.Scope().Innermost(x.softEndPos); sc != nil {
+			if _, obj := sc.LookupParent(id.Name, x.softEndPos); obj != nil {
+				if _, isVar := obj.(*types.Var); isVar && obj.Parent() != x.eng.pkg.Types.Scope() {
+					return x.valueOfObj(st, obj, id.Name)
+				}
+			}
+		}
+	}
 	if obj := x.eng.pkg.Types.Scope().Lookup(id.Name); obj != nil {
 		return x.valueOfObj(st, obj, id.Name)
 	}
